@@ -217,6 +217,7 @@ static int vr_dn_chains(void)
     P(pass_not_revoked,                         IMPLIES(PASS, SAME_CERT || (gh_crl_calls == 1 && gh_crl_cert == SC && SC->revokedStatus != CRL_CHECK_REVOKED_AND_AUTHENTICATED))) \
     P(pass_authority_key_id_matches,            IMPLIES(PASS, SAME_CERT || AKI_OK)) \
     P(success_records_a_verdict_and_issuer,     IMPLIES(RET == PS_SUCCESS, SC->authStatus != PS_FALSE && g_found == IC)) \
+    P(success_verdict_is_pass_or_a_recorded_failure, IMPLIES(RET == PS_SUCCESS, SC->authStatus == PS_CERT_AUTH_PASS || SC->authStatus == PS_CERT_AUTH_FAIL_EXTENSION || SC->authStatus == PS_CERT_AUTH_FAIL_AUTHKEY)) \
     P(failure_never_leaves_pass,                IMPLIES(RET != PS_SUCCESS, RET < 0 && SC->authStatus != PS_CERT_AUTH_PASS)) \
     P(compares_whole_strings_of_the_pair_only,  gh_cmp_partial == 0 && gh_cmp_foreign == 0)
 
